@@ -119,7 +119,11 @@ func (tt *typeTable) qual(p *types.Package) string {
 }
 
 func (tt *typeTable) typeName(t types.Type) string {
-	return sanitize(types.TypeString(t, tt.qual))
+	s := types.TypeString(t, tt.qual)
+	// byte/uint8 and rune/int32 are the same type: one component per type, whatever the spelling
+	s = strings.ReplaceAll(s, "uint8", "byte")
+	s = strings.ReplaceAll(s, "int32", "rune")
+	return sanitize(s)
 }
 
 func (tt *typeTable) typeID(t types.Type) int {
